@@ -1,6 +1,7 @@
 import Magog.Model.Time
 import Magog.Model.Eval
 import Magog.Model.Search
+import Magog.Model.Uci     -- C17
 import Magog.Spec.Chess
 import Magog.Spec.Fen
 import Magog.Abs
@@ -177,6 +178,63 @@ def eventStrF : Event → String
   | .bestmoveNone => "bestmove 0000"
 
 def lcg (s : Nat) : Nat := (s * 6364136223846793005 + 1442695040888963407) % 18446744073709551616
+
+/-! ==== BEGIN C17: command interpreter (`Model.uciStep`) ==================================================
+    `ucisess <hex line 1> <hex line 2> …` feeds the lines in order to `uciStep`, starting from the state of a
+    fresh process; prints one TAB-separated result per line: `ok pos=[<snapshot>]|pos=nil srch= li= quit= k= ev=<event>`
+    or `panic …` (the session ends there). Events: `-` none, `x:<hex>` the exact stdout text of the real
+    engine, `c:<class>[:payload]` where only the class of the text is modelled. -/
+
+def hexDigit (n : Nat) : Char := if n < 10 then Char.ofNat (48 + n) else Char.ofNat (87 + n)
+def hexOf (b : Bytes) : String := String.ofList (b.flatMap fun c => [hexDigit ((c / 16) % 16), hexDigit (c % 16)])
+def hexS (s : String) : String := hexOf (strBytes s)
+
+def uciOps : EngineOps := modelOps floatBlend (fun _ => pure [])
+
+def perftText (tactical : Bool) (es : List (Move × Nat)) : String :=
+  let body := String.join (es.map fun e => s!"{mvStr e.1}: {e.2}\n")
+  let total := (es.map (·.2)).sum
+  body ++ (if tactical then s!"total material-changing moves: {total}\n" else s!"total: {total}\n")
+
+def uciInfoText : String :=
+  s!"id name Magog {Gen.VERSION_STRING_str}\nid author Maciej Smolczewski\noption name {Gen.currmoveLogIntervalKey_str} type spin default {Gen.currmoveLogIntervalDefault} min {Gen.currmoveLogIntervalMin} max {Gen.currmoveLogIntervalMax}\nuciok\n"
+
+def uoutStr : UOut → String
+  | .readyok => "x:" ++ hexS "readyok\n"
+  | .noPositionEval => "x:" ++ hexS "No position set to evaluate\n"
+  | .evalValue v => s!"c:eval:{v}"
+  | .uciInfo => "x:" ++ hexS uciInfoText
+  | .stopRequested => "c:stop"
+  | .nilText => "x:" ++ hexS "<nil>\n"
+  | .positionText _ => "c:text"
+  | .fmtPanic => "c:fmtpanic"
+  | .help => "c:help"
+  | .invalidDepth arg => "x:" ++ hexOf (strBytes "Invalid depth:  " ++ arg ++ [10])
+  | .noPositionPerft => "x:" ++ hexS "No position set to count perft from\n"
+  | .perftDone t es => "x:" ++ hexS (perftText t es)
+  | .invalidFen _ => "c:badfen"
+  | .invalidPositionCommand _ => "c:badmoves"
+  | .noPositionGo => "x:" ++ hexS "No position set to start search from\n"
+  | .searchStarted ms d => s!"c:go:millis={ms} depth={d}"
+
+def uciStateStr (st : UciState) : String :=
+  let pos := match st.pos with | some p => s!"pos=[{snapshot p}]" | none => "pos=nil"
+  s!"{pos} srch={b2i st.searchAllocated} li={st.logInterval} quit={b2i st.quit} k={b2i (st.killers == Killers.empty)}"
+
+def uciSession (lines : List Bytes) : String := Id.run do
+  let mut st := UciState.init
+  let mut out : Array String := #[]
+  for l in lines do
+    match uciStep uciOps st l with
+    | .error e =>
+      out := out.push (panicStr e)
+      break
+    | .ok (st', evs) =>
+      st := st'
+      out := out.push s!"ok {uciStateStr st} ev={if evs.isEmpty then "-" else ",".intercalate (evs.map uoutStr)}"
+  return "\t".intercalate out.toList
+
+/-! ==== END C17 ========================================================================================= -/
 
 def dispatch (f : List String) : String :=
   match f with
@@ -377,6 +435,7 @@ def dispatch (f : List String) : String :=
           else ms.flatMap fun m => go (Spec.apply sp m) d (specMoveStr m :: pre)
       pure ("ok " ++ ";".intercalate (go (abs p) d.toNat! []))
   | ["slegal", fen] => withFen fen fun p => pure s!"ok {b2i (Spec.Legal (abs p))}"
+  | "ucisess" :: hxs => uciSession (hxs.map fun h => unhex h.toList)     -- C17
   | _ => "badop"
 
 partial def loop (h : IO.FS.Stream) (out : IO.FS.Stream) : IO Unit := do
